@@ -578,6 +578,77 @@ func runEngineMP(p *Prog, o *obls) {
 				}
 			})
 		}
+		// (c) what the report says is the counter: the value stored into a SenderReport's PacketCount / OctetCount is the
+		// counter field itself, conversions aside (a conversion to uint32 is the modulo 2^32 of RFC 3550) — not the
+		// result of a helper or a choice between values (a clamp saturates where the protocol wraps)
+		if fn.Pkg != nil && !p.Fixture {
+			for _, g := range p.Funcs {
+				if g.Blocks == nil || g.Pkg != fn.Pkg {
+					continue
+				}
+				instrsOf(g, func(in ssa.Instruction) {
+					st, ok := in.(*ssa.Store)
+					if !ok {
+						return
+					}
+					fa, ok := st.Addr.(*ssa.FieldAddr)
+					if !ok || !strings.HasSuffix(typeKey(deref(fa.X.Type())), "pion/rtcp.SenderReport") {
+						return
+					}
+					want := ""
+					switch fieldName(fieldKeyAddr(fa)) {
+					case "PacketCount":
+						want = cs.plusOne
+					case "OctetCount":
+						want = cs.plusLen
+					default:
+						return
+					}
+					v := st.Val
+					for {
+						if cv, ok := v.(*ssa.Convert); ok {
+							v = cv.X
+							continue
+						}
+						break
+					}
+					okVal := loadOfField(p, v, want)
+					// handed to a builder helper as a parameter: judged at the helper's call sites
+					if par, isPar := p.origin(v).(*ssa.Parameter); isPar && !okVal {
+						idx := -1
+						for i, q := range g.Params {
+							if q == par {
+								idx = i
+							}
+						}
+						if sites, closed := p.staticCallSites(g); idx >= 0 && closed && len(sites) > 0 {
+							okVal = true
+							for _, site := range sites {
+								a := site.Common().Args
+								if idx >= len(a) {
+									okVal = false
+									continue
+								}
+								av := a[idx]
+								for {
+									if cv, ok := av.(*ssa.Convert); ok {
+										av = cv.X
+										continue
+									}
+									break
+								}
+								if !loadOfField(p, av, want) {
+									okVal = false
+								}
+							}
+						}
+					}
+					if !okVal {
+						problems = append(problems, fmt.Sprintf("the report's %s is set at %s to something other than the counter %s itself (a conversion aside): the report no longer says what was counted, modulo 2^32", fieldName(fieldKeyAddr(fa)), p.instrPos(st), fieldName(want)))
+					}
+				})
+			}
+		}
 		if len(problems) > 0 {
 			o.bad("P1", cs.fn, p.Pos(fn.Pos()), strings.Join(dedupe(problems), "; "))
 		} else {
